@@ -252,7 +252,7 @@ pub fn run(ctx: &Ctx) -> ! {
     let mut rep = Report::new(
         ctx,
         "model_checking",
-        "explicit-state breadth-first search to a FIXPOINT over the alphabet add(kind in {operation, job, printer, unsupported}, name in {a,b}, value in {1,2[,3]}) from the empty container and from parser-produced messages with repeated / empty groups; every state is rebuilt as a fresh real IppAttributes from its history (IppAttributes::new or IppParser::parse_parts, then add ... add), the operation is applied to the real object and to the ordered model R6, and groups(), groups_of(kind) for all four kinds and into_groups() are compared with the model on every transition. Value traversal: every value of the bounded value space, IntoIterator compared element-by-element (pointer identity) with the model sequence, then None three times. states = distinct canonical container states; non-trivial = more than one attribute",
+        "explicit-state breadth-first search to a FIXPOINT over the alphabet add(kind in {operation, job, printer, unsupported}, name in {a,b}, value in {1,2[,3]}) from the empty container and from parser-produced messages with repeated / empty groups; every state is rebuilt as a fresh real IppAttributes from its history (IppAttributes::new or IppParser::parse_parts, then add ... add), the operation is applied to the real object and to the ordered model R6, and groups(), groups_of(kind) for all four kinds and into_groups() are compared with the model on every transition. Value traversal: every value of the bounded value space, IntoIterator compared element-by-element (pointer identity) with the model sequence, then None three times; collections over every subset of <= 3 of 11 tricky member names (empty, case twins, trailing blank / NUL, NFC vs NFD, extremes of the octet order) with scalar / set / collection members, built in memory and read back from the wire; the expected member order is established by sorting the names, not taken from the map. states = distinct canonical container states; non-trivial = more than one attribute",
     );
     rep.assume("canonicalisation (ordered list of (kind, sorted name->value map)) merges only states with equal futures: add/groups_of depend on group kinds in order and on map contents only");
 
